@@ -203,8 +203,8 @@ def script_lines(case, abs_prefix):
     for st in case["steps"]:
         op = st[0]
         if op == "frontend":
-            desc, db, serial = st[1], st[2], st[3]
-            L.append("FRONTEND\t%s\t%s\t%s" % (hx(render(desc, case["nodes"], abs_prefix)), hx("1" if db else "0"), hx("1" if serial else "0")))
+            desc, db, serial = st[1], st[2], st[3]; cof = len(st) > 4 and st[4]
+            L.append("FRONTEND\t%s\t%s\t%s\t%s" % (hx(render(desc, case["nodes"], abs_prefix)), hx("1" if db else "0"), hx("1" if serial else "0"), hx("1" if cof else "0")))
             for name, c in desc["cmds"].items():
                 if c["outs"]:
                     L.append("OUTPUTS\t%s\t%s" % (hx(name), "\t".join(hx(case["nodes"][o]["path"] if case["nodes"][o]["kind"] != "virtual" else "") for o in c["outs"])))
@@ -274,7 +274,7 @@ def weave(case, evs):
             fs[ch["p"]].update(t=ch["t"], c=ch["c"])
     out.append(dict(e="Reset", nodes=case["nodes_spec"], paths=case["paths"], fs=fs))
     steps = iter(case["steps"])
-    cur = None; j = i + 1
+    cur = None; j = i + 1; cof = False
     while j < len(evs):
         e = evs[j]; j += 1
         k = e["e"]
@@ -282,12 +282,12 @@ def weave(case, evs):
             if e["op"] in ("OUTPUTS",): continue
             cur = next(steps)
         elif k == "Frontend":
-            out.append(dict(e="Frontend", desc=spec_desc(cur[1]), db=e["db"]))
+            out.append(dict(e="Frontend", desc=spec_desc(cur[1]), db=e["db"])); cof = len(cur) > 4 and bool(cur[4])
         elif k == "Mutate":
             out.append(dict(e="Mutate", changes=e["changes"]))
         elif k == "Build":
             needs, seq, removed = [], [], []
-            out.append(dict(e="Build", k=key_rec(e["k"])))
+            out.append(dict(e="Build", k=key_rec(e["k"]), cof=cof))
             while j < len(evs) and evs[j]["e"] != "BuildEnd":
                 x = evs[j]; j += 1
                 if x["e"] == "NeedsRun": needs.append(dict(k=key_rec(x["k"]), reason=x["reason"], input=key_rec(x["input"]) if x["input"] else dict(t="-", n="")))
